@@ -3,6 +3,7 @@ package main
 import (
 	"fmt"
 	"strings"
+	"time"
 
 	pongo2 "github.com/flosch/pongo2/v6"
 )
@@ -116,12 +117,34 @@ func suiteC20Hist(cfg Config, res *Result) {
 		mustFetch := map[string]bool{} // cleaned since it was last cached: the next lookup has to go to the loader
 		debug := false
 		inCache := map[string]bool{} // names a non-debug FromCache has stored and no CleanCache has covered since
+		hung := false
 		for _, o := range ops {
+			if hung {
+				break
+			}
 			switch o.k {
 			case "G":
 				gets[o.names[0]]++
 				before := len(ml.log)
-				tpl, err := set.FromCache(o.names[0])
+				type fcRes struct {
+					tpl *pongo2.Template
+					err error
+				}
+				ch := make(chan fcRes, 1)
+				go func(name string) {
+					t, e := set.FromCache(name)
+					ch <- fcRes{t, e}
+				}(o.names[0])
+				var tpl *pongo2.Template
+				var err error
+				select {
+				case r := <-ch:
+					tpl, err = r.tpl, r.err
+				case <-time.After(4 * time.Second):
+					hung = true
+					res.add(Finding{Kind: "oracle", Proj: "cache", Sig: "c20-call-does-not-return", Case: fmt.Sprint(ops), Impl: fmt.Sprintf("%s did not return within 4s", o), Model: "a template or an error"})
+					continue
+				}
 				if tpl == nil && err == nil {
 					res.add(Finding{Kind: "oracle", Proj: "cache", Sig: "c20-neither-template-nor-error", Case: fmt.Sprint(ops), Impl: fmt.Sprintf("%s returned (nil, nil)", o), Model: "a template or an error"})
 				}
@@ -163,14 +186,22 @@ func suiteC20Hist(cfg Config, res *Result) {
 					}
 				}
 			case "A":
-				set.CleanCache()
+				if !c20Within(func() { set.CleanCache() }) {
+					hung = true
+					res.add(Finding{Kind: "oracle", Proj: "cache", Sig: "c20-call-does-not-return", Case: fmt.Sprint(ops), Impl: "CleanCache() did not return within 4s", Model: "returns"})
+					continue
+				}
 				lastPtr = map[string]*pongo2.Template{}
 				inCache = map[string]bool{}
 				for _, nm := range files {
 					mustFetch[nm] = true
 				}
 			case "K":
-				set.CleanCache(o.names...)
+				if names := o.names; !c20Within(func() { set.CleanCache(names...) }) {
+					hung = true
+					res.add(Finding{Kind: "oracle", Proj: "cache", Sig: "c20-call-does-not-return", Case: fmt.Sprint(ops), Impl: fmt.Sprintf("%s did not return within 4s", o), Model: "returns"})
+					continue
+				}
 				for _, nm := range o.names {
 					delete(lastPtr, ml.Abs("", nm))
 					delete(inCache, ml.Abs("", nm))
@@ -186,6 +217,19 @@ func suiteC20Hist(cfg Config, res *Result) {
 					ml.files[ml.Abs("", o.names[0])] = *o.body
 				}
 			}
+		}
+		if hung {
+			impls = append(impls, "hung")
+			var ws []string
+			for _, o := range ops {
+				ws = append(ws, o.wire())
+			}
+			reqs = append(reqs, "cache "+strings.Join(ws, " "))
+			descs = append(descs, fmt.Sprint(ops))
+			if len(res.Findings) > 3 {
+				break // every history hangs alike: enough
+			}
+			continue
 		}
 		// the other set still has its own cached template
 		if t2, err := other.FromCache("o.tpl"); err != nil || t2 != otherTpl {
@@ -228,5 +272,17 @@ func suiteC20Hist(cfg Config, res *Result) {
 		if model[i] != impls[i] {
 			res.add(Finding{Kind: "disagree", Proj: "cache", Sig: "c20-hist-model", Case: descs[i], Impl: impls[i], Model: model[i]})
 		}
+	}
+}
+
+// c20Within runs f and reports whether it came back within the watchdog's time
+func c20Within(f func()) bool {
+	done := make(chan struct{})
+	go func() { f(); close(done) }()
+	select {
+	case <-done:
+		return true
+	case <-time.After(4 * time.Second):
+		return false
 	}
 }
